@@ -302,9 +302,8 @@ def run(ctx):
                          "scipy.interpolate.PchipInterpolator only as a falsifier oracle, never as evidence"]
     ctx.assumptions += ["theorems are in exact real arithmetic (R instance of the model term); rounding is outside",
                         "falsifier skips cases whose binary64 coefficients overflow to inf/nan",
-                        "finding F-11: shape preservation and equality with the standard PCHIP hold for the "
-                        "current source only when no end interval is flat next to a non-flat one (proved as "
-                        "_partial, refuted otherwise)"]
+                        "finding F-11 (flat end interval overshoot) is fixed in /repo b976cb3; its witnesses are "
+                        "regression cases in corpus/C20.json and would be reported under the same finding key"]
 
 
 def _hist(v):
@@ -329,11 +328,12 @@ META = {
     "text": ("Proved for every knot count n >= 2, all strictly increasing knots and all real values: exactness at "
              "every knot, piecewise-cubic representation incl. extrapolation by the end cubics, C1 at interior knots, "
              "monotonicity/boundedness of any Hermite piece whose end slopes are in the Fritsch-Carlson box (closed-"
-             "form convex-combination identity), box property of all interior slopes, and, when no end interval is "
-             "flat next to a non-flat one, shape preservation on every interval and equality with an independently "
-             "written standard PCHIP (SciPy end rule) at every query point. Without that side condition both are "
-             "refuted in Coq (finding F-11) and found on the real code by the falsifier. The PrimFloat instance of "
-             "the same term is compared bit-for-bit with PCHIP1D (all coefficients and query values)."),
+             "form convex-combination identity), box property of every knot slope (interior and end), shape "
+             "preservation on every interval (values between the two data values, monotone in the data's direction), "
+             "equality with an independently written standard PCHIP (SciPy end rule, Hermite-basis evaluation) at "
+             "every query point inside and outside the range, and non-negativity on the knot range for non-negative "
+             "data. The pre-fix limiter (finding F-11) is still refuted in Proofs/PchipProofs.v. The PrimFloat "
+             "instance of the same term is compared bit-for-bit with PCHIP1D (all coefficients and query values)."),
     "note": ("Trusted: Coq kernel+VM, stdlib real-number axioms, the hand-written model (validated by the "
              "correspondence each run), PrimFloat==torch float64 elementwise. Theorems are in exact arithmetic; "
              "binary64 overflow cases are outside the oracle."),
